@@ -31,6 +31,13 @@ class Nested(object):
     pass
 
 
+class SizedHistory(History):
+    """A History that is falsy while empty (it has a length)."""
+
+    def __len__(self):
+        return len(self.requests)
+
+
 class Registry(object):
     """Registers one recording callable per method name on a dispatcher."""
 
@@ -196,7 +203,7 @@ def check_session(case):
     d = SimpleJSONRPCDispatcher(config=cfg)  # a fresh dispatcher: sessions change the registrations
     reg = Registry(d)
     t = LoopbackTransport(d)
-    hist = History()
+    hist = SizedHistory() if vi == 5 else History()
     proxy = jsonrpclib.ServerProxy("http://h/", transport=t, version=cv, history=hist)
     base = 0  # index of the first exchange after the last History.clear()
     shared_mc = jsonrpclib.MultiCall(proxy)
